@@ -513,7 +513,12 @@ func runCase(in caseIn) (obs []Sx, nt bool, fatal error) {
 		res = T("res", A("ok"), I64(car.BeginTime), I64(car.EndTime), I(car.CommitsNumber), T("fins", fs...))
 	}
 	nt = len(resolved) >= 2 && ncommitSteps >= 2
-	obs = []Sx{T("order", Ints(order).List...), T("plan", psx...), T("log", sh.log...), res}
+	// the committer times as Run reads them (after the round trip through the object store)
+	tsx := make([]Sx, len(commits))
+	for i, cm := range commits {
+		tsx[i] = L(I(in.Commits[i].ID), I64(cm.Committer.When.Unix()))
+	}
+	obs = []Sx{T("order", Ints(order).List...), T("times", tsx...), T("plan", psx...), T("log", sh.log...), res}
 	return obs, nt, nil
 }
 
@@ -569,7 +574,7 @@ func parseCase(s Sx) caseIn {
 }
 
 func emit(c *Config, in caseIn) {
-	if len(in.Commits) == 0 || len(in.Items) == 0 {
+	if len(in.Items) == 0 {
 		return
 	}
 	obs, nt, fatal := runCase(in)
@@ -816,8 +821,10 @@ func main() {
 	if c.Thorough() {
 		exhaustive(c, 5, pipes[:2], []int{0, 2})
 	}
+	// no commits at all: Run panics on plan[0]
+	emit(c, caseIn{Kind: "empty", Dist: 0, Items: fixedPipeline(0, c), Inj: injection{Kind: "none"}})
 	// linear histories
-	for i := c.Count(60, 400); i > 0; i-- {
+	for i := c.Count(200, 1000); i > 0; i-- {
 		n := 1 + c.Rng.Intn(8)
 		ts := randomTimes(c, n)
 		cs := make([]commitSpec, n)
@@ -832,14 +839,14 @@ func main() {
 		emit(c, caseIn{Kind: "lin", Dist: d, Items: its, Inj: pickInjection(c, its, n, d), Commits: cs})
 	}
 	// random DAGs with merges, octopus merges and several roots
-	for i := c.Count(700, 12000); i > 0; i-- {
+	for i := c.Count(2500, 20000); i > 0; i-- {
 		cs := randomDag(c, 14)
 		its := pickPipeline(c)
 		d := []int{0, 0, 1, 1, 2, 3, 5}[c.Rng.Intn(7)]
 		emit(c, caseIn{Kind: "dag", Dist: d, Items: its, Inj: pickInjection(c, its, len(cs), d), Commits: cs})
 	}
 	// the conflict-free histories of harness/synth (the generator of the burndown checks)
-	for i := c.Count(250, 4000); i > 0; i-- {
+	for i := c.Count(900, 8000); i > 0; i-- {
 		h := synth.GenHist(c.Rng, synth.GenOpts{MaxCommits: 12, SingleHead: c.Rng.Intn(2) == 0})
 		cs := fromHist(c, h)
 		its := pickPipeline(c)
